@@ -314,7 +314,17 @@ func c08DrawSeed(t *testing.T, rt *rapid.T) (*c08Seed, error) {
 	}
 	ctx := bi(int64(rapid.IntRange(1, 1000).Draw(rt, "ctx")))
 	nonce := bi(int64(rapid.IntRange(1, 1<<30).Draw(rt, "nonce")))
-	return c08Build(keys, members, genSecret(rt, "secret"), ctx, nonce, rapid.Bool().Draw(rt, "issig"), asMsg)
+	secret := genSecret(rt, "secret")
+	if !asMsg && rapid.IntRange(0, 7).Draw(rt, "zeroSecret") == 0 {
+		// a holder whose secret key is 0 and who uses the randomiser 0 for it: the response at index 0
+		// is 0 and R_0 contributes nothing, so members of the proof can be removed without disturbing
+		// the challenge - the structural checks alone decide
+		secret = bi(0)
+		for i := range members {
+			members[i].kind = "disc+zero"
+		}
+	}
+	return c08Build(keys, members, secret, ctx, nonce, rapid.Bool().Draw(rt, "issig"), asMsg)
 }
 
 func c08Subtree(desc []string) string {
@@ -390,6 +400,34 @@ func TestVF_C08_Mutator(t *testing.T) {
 				}
 				if !rec.Fail(rt, sig, d) {
 					return
+				}
+			}
+		}
+		// ---- every single member removed / zeroed in turn (a rotating sample when the document is
+		// large): the random operator choice above seldom hits one particular map entry of one
+		// particular proof of the list
+		nl := vfh.JSONLeafCount(seed.doc)
+		step := nl/rec.N(6, 120) + 1
+		off := 0
+		if step > 1 {
+			off = rapid.IntRange(0, step-1).Draw(rt, "leafOffset")
+		}
+		for i := off; i < nl; i += step {
+			for _, mode := range []string{"remove", "zero"} {
+				alt, path, changed := vfh.JSONAlterLeaf(seed.doc, i, mode)
+				if !changed || alt == nil {
+					continue
+				}
+				sig, reached, _ := c08Judge(seed, alt)
+				cls := "decode-rejected"
+				if reached {
+					cls = "reached-verification/single-member-" + mode
+				}
+				rec.Case(cls, reached, string(alt))
+				if sig != "" {
+					if !rec.Fail(rt, sig+":single-member-"+mode, map[string]any{"seed": seed.name, "member": path, "edit": mode}) {
+						return
+					}
 				}
 			}
 		}
